@@ -15,7 +15,7 @@ func init() {
 		id: "C04",
 		li: levelInfo{
 			Level:       "other",
-			Explanation: "Static path and ownership rules on the redirect machinery. R1: in the backend reply dispatcher no path leads from a matched MOVED/ASK (resp. CLUSTERDOWN) prefix to handing that error to the client while the callback is installed; the compared words are the three protocol constants; the prefix is the first word; the callback is invoked synchronously by the reader (ordering of redirected requests). R2: the only construction site of a backend connection installs both callbacks and the constructor applies every option. R3: every path that follows a redirect reaches the slot-refresh trigger. R4: each arm consumes the redirected request exactly once (E-own). R5: in the ASK arm ASKING and the command go to the same address value, ASKING first; a well-formed redirect error is never passed through to the client. Whole migration histories and the interleaving of other traffic between ASKING and the command are not decided. R6 (shared with C14.R6): only a slots refresh writes the routing table - a redirection never changes the owner of a slot. R8 (shared with C02.R3-R5): the terminal drain of a backend connection covers every queue, runs after the reader returned and the writer was joined, and racing enqueues re-test the quit latch. R1 also requires the classification to be dominated by Type == Error. R3 also requires every recognised MOVED/ASK arm to reach the trigger. R9: hook lists own their spare capacity; no lock is held at a join that the joined goroutines need.",
+			Explanation: "Static path and ownership rules on the redirect machinery. R1: in the backend reply dispatcher no path leads from a matched MOVED/ASK (resp. CLUSTERDOWN) prefix to handing that error to the client while the callback is installed; the compared words are the three protocol constants; the prefix is the first word; the callback is invoked synchronously by the reader (ordering of redirected requests). R2: the only construction site of a backend connection installs both callbacks and the constructor applies every option. R3: every path that follows a redirect reaches the slot-refresh trigger. R4: each arm consumes the redirected request exactly once (E-own). R5: in the ASK arm ASKING and the command go to the same address value, ASKING first; a well-formed redirect error is never passed through to the client. Whole migration histories and the interleaving of other traffic between ASKING and the command are not decided. R6 (shared with C14.R6): only a slots refresh writes the routing table - a redirection never changes the owner of a slot. R8 (shared with C02.R3-R5): the terminal drain of a backend connection covers every queue, runs after the reader returned and the writer was joined, and racing enqueues re-test the quit latch. R1 also requires the classification to be dominated by Type == Error. R3 also requires every recognised MOVED/ASK arm to reach the trigger. R9: hook lists own their spare capacity; no lock is held at a join that the joined goroutines need. R10: the router returns an error only when the routing table has no entry for the slot. R11 (shared with C07.R7/C03.R4): the CLUSTER NODES parser, including the reasons for which it may reject a whole view.",
 			TrustedBase: []string{"go/ssa", "VTA call graph", "samlint eown.go"},
 		},
 		run: checkC04,
